@@ -41,15 +41,15 @@ type vC01 struct {
 	crashLog []string
 	step     int
 	// crash plan of the running operation
-	crashAt  int
-	cutSel   int
-	events   []string
-	imaged   string
-	cuts     []string
-	imgErr   error
-	evSeen   map[string]int
-	crashed  map[string]int
-	lastEv   string
+	crashAt int
+	cutSel  int
+	events  []string
+	imaged  string
+	cuts    []string
+	imgErr  error
+	evSeen  map[string]int
+	crashed map[string]int
+	lastEv  string
 }
 
 func (c *vC01) hook(ev, path string, n int64) {
